@@ -354,8 +354,11 @@ def run_check(prop, spec, tier, replay=None):
     # 2. corpus + seeded random machines (or the property's own runner)
     n = spec["n_quick"] if tier == "quick" else spec["n_thorough"]
     if spec.get("custom") == "puml":
-        import pumlcheck
+        import pumlcheck, pumlmachines
         mm, vv = pumlcheck.run(seed, n, stats)
+        # whole machines written as PlantUML text against the description they were printed from
+        mm2, vv2 = pumlmachines.run(seed, 6 if tier == "quick" else 36, stats)
+        mm += mm2; vv += vv2
     elif spec.get("custom") == "store":
         import storecheck
         mm, vv = storecheck.run(seed, n, stats)
